@@ -60,6 +60,7 @@ type runState struct {
 	curMaxPar int
 	unit      time.Duration
 	sents     []error
+	errsVal   []*dag.Errors // per task: the *Errors value returned by "errs0"/"errs1" attempts
 
 	entries    []entryEv
 	attempts   [][]int
@@ -80,6 +81,7 @@ type runState struct {
 	obsSeq     []uint64   // per graph: first fired foreign receive on the goroutine that called Run
 	dfs        [][]string
 	dfsErr     []error
+	again      bool   // the Run being judged is a repetition on an unchanged graph
 	lockProbe  string // the Task the post-run lock probe is waiting for ("" = not probing)
 	cancelSeq  uint64 // first cancel() issued
 	cancelSlp  []int  // per graph: sleeps the Run goroutine had started when cancel() was issued
@@ -119,6 +121,19 @@ func (r *runState) limit() int {
 }
 
 func isSkip(res string) bool { return res == "skip" || res == "skipw" }
+func isErr(res string) bool  { return res == "err" || res == "errs0" || res == "errs1" }
+
+// attemptSpec is the behaviour of attempt k of task i when it runs in graph g.
+func (r *runState) attemptSpec(g, i, k int) AttemptSpec {
+	as := r.sc.Tasks[i].Attempts
+	if g == 1 && len(r.sc.Tasks[i].G1) > 0 {
+		as = r.sc.Tasks[i].G1
+	}
+	if k < len(as) {
+		return as[k]
+	}
+	return as[len(as)-1]
+}
 
 // checkable reports whether the ordering/reporting oracles apply: the declared graph is free of
 // definition errors and acyclic (DESIGN §4.1).
@@ -265,6 +280,17 @@ func Execute(sc *Scenario, ch simrt.Chooser, keepTrace bool) *Result {
 	r.inWrite = make([]bool, ng)
 	for i := 0; i < n; i++ {
 		r.sents = append(r.sents, fmt.Errorf("E_t%02d", i))
+		ev := &dag.Errors{Msg: fmt.Sprintf("nested graph of t%02d", i)}
+		r.errsVal = append(r.errsVal, ev)
+	}
+	for i := range sc.Tasks {
+		for _, as := range [][]AttemptSpec{sc.Tasks[i].Attempts, sc.Tasks[i].G1} {
+			for _, a := range as {
+				if a.Res == "errs1" && len(r.errsVal[i].Errors) == 0 {
+					r.errsVal[i].Errors = append(r.errsVal[i].Errors, fmt.Errorf("inner failure of t%02d", i))
+				}
+			}
+		}
 	}
 	if sc.Policy.Kind == "pct" {
 		res.Faults["starve_goroutine"]++
@@ -358,11 +384,7 @@ func (r *runState) taskFn(i, alt int, cancel context.CancelFunc) getoptions.Comm
 		r.histAdd(fmt.Sprintf("entry g%d t%02d #%d", g, i, k))
 		r.entries = append(r.entries, entryEv{g, i, k, r.phase, seq, simrt.CurSpawnSeq(), simrt.CurName(), vc})
 		tagK := k + 100*(r.phase-1) // output tags of the second Run are distinct
-		as := sc.Tasks[i].Attempts
-		a := as[len(as)-1]
-		if k < len(as) {
-			a = as[k]
-		}
+		a := r.attemptSpec(g, i, k)
 		R := m.Retries[i]
 
 		// ---- online oracles ----
@@ -483,6 +505,15 @@ func (r *runState) taskFn(i, alt int, cancel context.CancelFunc) getoptions.Comm
 		r.exitSeq[g][i] = xseq
 		r.histAdd(fmt.Sprintf("exit g%d t%02d #%d %s", g, i, k, a.Res))
 		switch a.Res {
+		case "errs0", "errs1":
+			// the task's error is itself a *dag.Errors value (a task that ran a nested graph)
+			if k >= R {
+				r.res.Faults["task_error_is_errors_value"]++
+				if r.failSeq == 0 {
+					r.failSeq = xseq
+				}
+			}
+			return r.errsVal[i]
 		case "err":
 			if k >= R {
 				r.res.Faults["task_error"]++
@@ -669,6 +700,21 @@ func (r *runState) main() {
 				for _, v := range vs {
 					r.dfs[0] = append(r.dfs[0], string(v.ID))
 				}
+				simrt.Unlock()
+				runOnce()
+			}
+			if sc.Again && ng == 1 && r.cancelSeq == 0 {
+				simrt.Lock()
+				r.posthocGraph(0, false)
+				r.res.Probes["run_again_on_same_graph"]++
+				r.histAdd("again")
+				for i := 0; i < n; i++ {
+					r.carried[i] = r.carried[i] || r.attempts[0][i] > 0
+					r.attempts[0][i] = 0
+				}
+				r.phase++
+				r.again = true
+				r.returned[0] = false
 				simrt.Unlock()
 				runOnce()
 			}
@@ -882,6 +928,26 @@ func (r *runState) posthocGraph(g int, final bool) {
 	}
 	// state at the moment Run returned (a task still executing then has not "run successfully")
 	att, fin, inFn := r.snapAtt[g], r.snapFinal[g], r.snapInFn[g]
+	if r.again {
+		// A repetition of Run on an unchanged graph: what it reports is the implementation's
+		// business (the pinned code returns the errors of the earlier Run again), but nil still
+		// means "every task ran successfully or was skipped through ErrorSkipParents".
+		if r.runErr[g] == nil {
+			S2 := make([]bool, n)
+			for _, i := range m.Order {
+				if isSkip(fin[i]) && !inFn[i] {
+					S2[i] = true
+				}
+			}
+			sp2 := m.Dependents(S2)
+			for _, i := range m.Order {
+				if !((fin[i] == "ok" && !inFn[i]) || S2[i] || sp2[i]) {
+					r.fail("C14", "O14c", r.retSeq[g], "g%d: Run was called again on the unchanged graph and returned nil, but t%02d neither ran successfully nor was skipped through ErrorSkipParents (last result %q)", g, i, fin[i])
+				}
+			}
+		}
+		return
+	}
 	F, S, N := make([]bool, n), make([]bool, n), make([]bool, n)
 	nF := 0
 	for _, i := range m.Order {
@@ -891,7 +957,7 @@ func (r *runState) posthocGraph(g int, final bool) {
 		case att[i] == 0:
 			N[i] = true
 		case inFn[i]:
-		case fin[i] == "err":
+		case isErr(fin[i]):
 			F[i] = true
 			nF++
 		case isSkip(fin[i]):
@@ -922,7 +988,7 @@ func (r *runState) posthocGraph(g int, final bool) {
 		for _, e := range errs.Errors {
 			matched := false
 			for _, i := range m.Order {
-				if errors.Is(e, r.sents[i]) {
+				if errors.Is(e, r.sents[i]) || errors.Is(e, error(r.errsVal[i])) {
 					found[i]++
 					matched = true
 				}
@@ -1008,11 +1074,7 @@ func (r *runState) posthocGraph(g int, final bool) {
 			if e.graph != g {
 				continue
 			}
-			as := sc.Tasks[e.task].Attempts
-			a := as[len(as)-1]
-			if e.attempt < len(as) {
-				a = as[e.attempt]
-			}
+			a := r.attemptSpec(g, e.task, e.attempt)
 			if a.Chunks == 0 {
 				continue
 			}
